@@ -161,6 +161,7 @@ func rewardsProfile() Profile {
 	p.InvalidPct = 3
 	p.Weights[GRedelThenExit] = 3
 	p.Weights[GWeightChangeOut] = 3
+	p.Weights[GRedelIntoUnclaim] = 4
 	return p
 }
 
